@@ -9,7 +9,9 @@ use std::{
     time::Instant,
 };
 
-pub const VERIF_DIR: &str = "/verif";
+pub fn verif_dir() -> String {
+    std::env::var("VERIF_DIR").unwrap_or_else(|_| "/verif".to_string())
+}
 
 pub struct Known {
     pub property: String,
@@ -19,7 +21,7 @@ pub struct Known {
 }
 
 pub fn load_known(property: &str) -> Vec<Known> {
-    let path = format!("{VERIF_DIR}/known_findings.json");
+    let path = format!("{}/known_findings.json", verif_dir());
     let Ok(s) = std::fs::read_to_string(&path) else { return vec![] };
     let Ok(v) = serde_json::from_str::<Value>(&s) else {
         eprintln!("HARNESS-ERROR: {path} is not valid JSON");
@@ -287,7 +289,7 @@ pub fn parent(spec: &'static CheckSpec, opts: ParentOpts) -> i32 {
             "wall_s": wall,
             "violations": violations.len(),
         });
-        write_json(&format!("{VERIF_DIR}/evidence/{}.json", spec.id), &ev);
+        write_json(&format!("{}/evidence/{}.json", verif_dir(), spec.id), &ev);
     }
     println!(
         "# done check={} runs={} distinct_nontrivial={} sim_s={:.1} wall_s={:.1} violations={} exit={}",
@@ -395,7 +397,7 @@ fn shrink_and_write(spec: &'static CheckSpec, tier: Tier, seed: u64, run: u64, s
         Some(o) => (o.trace.clone(), format!("{:016x}", o.fingerprint), o.violation.clone(), map_json(&o.faults)),
         None => (vec![], String::new(), None, json!({})),
     };
-    let path = format!("{VERIF_DIR}/replays/{}-s{}-r{}-{}.json", spec.id, seed, run, clause.replace(|c: char| !c.is_ascii_alphanumeric(), "_"));
+    let path = format!("{}/replays/{}-s{}-r{}-{}.json", verif_dir(), spec.id, seed, run, clause.replace(|c: char| !c.is_ascii_alphanumeric(), "_"));
     let file = json!({
         "property": spec.id,
         "scenario": scn,
